@@ -822,6 +822,12 @@ fn run_text(th: usize, ti: usize, t: &Text, dir: &Path, watch: &Watch, sh: &Shar
                 sh.push(format!("CMP\t{}\tdot\t{}\t{}\t{}\t{}\tskip:field-before-call\t\t", t.id, l, c, name, kind));
                 continue;
             }
+            // `p.x::` (a mutation put `::` behind the word) is not a field access whatever `x` is:
+            // the parser reads a method path; the complaint is about the text, not about the item
+            if *q == 1 && kind == "Field" && src[end..].trim_start().starts_with("::") {
+                sh.push(format!("CMP\t{}\tdot\t{}\t{}\t{}\t{}\tskip:field-before-colon-colon\t\t", t.id, l, c, name, kind));
+                continue;
+            }
             if !bases.contains_key(kind) {
                 // a text with typer errors of its own is inconclusive: lookups on the receiver can fail
                 // because its type is already broken, whatever name is inserted
